@@ -6,6 +6,14 @@
      condition of the left join, the engine evaluates it inside the optional part."""
 
 
+def expr_vars(e):
+    if e["f"] in ("and", "or"):
+        return expr_vars(e["a"]) | expr_vars(e["b"])
+    if e["f"] == "not":
+        return expr_vars(e["a"])
+    return {e["v"]}
+
+
 def tvars(t):
     return {x["v"] for x in (t["s"], t["p"], t["o"]) if "v" in x}
 
@@ -58,7 +66,7 @@ def classes(g):
                 if x["k"] != "filter":
                     inner |= elem_vars(x)[0]
             for x in e["g"]:
-                if x["k"] == "filter" and x["e"]["v"] not in inner:
+                if x["k"] == "filter" and not expr_vars(x["e"]) <= inner:
                     out.add("F")
             out |= classes(e["g"])
             acc_maybe |= (allv - acc_all)            # new variables of an OPTIONAL may stay unbound
